@@ -11,7 +11,67 @@ use std::sync::{Arc, Barrier};
 
 use crate::util::{hash64, Ctx, Rng};
 
+// Name parts of different argument classes (dots, leading dot, spaces, empty, non-ASCII, long).
+const NAME_PARTS: [&str; 10] = ["vmon-c20", "graph.sds", "archive.tar.gz", ".hidden", "with space", "", "ünïcödé", "trailing.", "a", "a-rather-long-name-part-for-a-temporary-file-0123456789"];
+
+// Child entry point: the very first calls of a fresh process, made concurrently. Prints every name.
+pub fn child(kv: &std::collections::BTreeMap<String, String>) -> ! {
+    let threads: usize = kv.get("threads").and_then(|x| x.parse().ok()).unwrap_or(16);
+    let calls: usize = kv.get("calls").and_then(|x| x.parse().ok()).unwrap_or(4);
+    let part = kv.get("part").cloned().unwrap_or_else(|| "fresh".to_string());
+    let go = Arc::new(std::sync::atomic::AtomicBool::new(false));
+    let ready = Arc::new(std::sync::atomic::AtomicUsize::new(0));
+    let mut handles = Vec::new();
+    for _ in 0..threads {
+        let (go, ready, part) = (go.clone(), ready.clone(), part.clone());
+        handles.push(std::thread::spawn(move || {
+            ready.fetch_add(1, std::sync::atomic::Ordering::SeqCst);
+            while !go.load(std::sync::atomic::Ordering::SeqCst) { std::hint::spin_loop(); }
+            (0..calls).map(|_| serialize::temp_file_name(&part).to_string_lossy().to_string()).collect::<Vec<String>>()
+        }));
+    }
+    while ready.load(std::sync::atomic::Ordering::SeqCst) < threads { std::thread::yield_now(); }
+    go.store(true, std::sync::atomic::Ordering::SeqCst);
+    for h in handles { for n in h.join().unwrap() { println!("NAME {}", n); } }
+    std::process::exit(0);
+}
+
+// Fresh processes: the first use of the counter is a regime of its own.
+fn fresh_processes(ctx: &mut Ctx) {
+    if cfg!(miri) { return; }
+    let exe = match std::env::current_exe() { Ok(e) => e, Err(e) => { ctx.inconclusive(format!("current_exe: {}", e)); return; } };
+    let n = ctx.size(24, 200);
+    let mut dup_processes = 0u64;
+    for k in 0..n {
+        if !ctx.begin_case() { continue; }
+        let part = NAME_PARTS[k % NAME_PARTS.len()];
+        let out = std::process::Command::new(&exe).args(["c20child", "threads=16", "calls=4", &format!("part={}", part)]).output();
+        ctx.checks += 1;
+        match out {
+            Err(e) => { ctx.inconclusive(format!("could not spawn a fresh process: {}", e)); return; },
+            Ok(o) => {
+                let text = String::from_utf8_lossy(&o.stdout).to_string();
+                let names: Vec<&str> = text.lines().filter_map(|l| l.strip_prefix("NAME ")).collect();
+                if names.len() != 64 { ctx.inconclusive(format!("fresh process returned {} names (status {:?})", names.len(), o.status.code())); continue; }
+                let distinct: HashSet<&str> = names.iter().copied().collect();
+                if distinct.len() != names.len() {
+                    dup_processes += 1;
+                    ctx.violation("temp_file_name.duplicate.first_use", format!("a fresh process whose first 64 calls (16 threads x 4) were concurrent returned only {} distinct paths, e.g. {}", distinct.len(), names[0]));
+                }
+                for nm in names.iter() {
+                    let file = nm.rsplit('/').next().unwrap_or("");
+                    if !file.contains(part) { ctx.violation("temp_file_name.name_part", format!("path {} does not contain the name part {:?}", nm, part)); break; }
+                }
+                ctx.case(hash64(&[0xF5, k as u64, distinct.len() as u64]), true);
+            },
+        }
+    }
+    ctx.count("fresh_processes", n as u64);
+    ctx.count("fresh_processes_with_duplicates", dup_processes);
+}
+
 pub fn run(ctx: &mut Ctx) {
+    fresh_processes(ctx);
     let rounds = ctx.size(50, 500);
     let mut all: HashSet<String> = HashSet::new();
     let mut total_switches = 0u64;
@@ -20,7 +80,7 @@ pub fn run(ctx: &mut Ctx) {
         if !ctx.begin_case() { continue; }
         let mut rng: Rng = ctx.rng(0xC20_000 + r as u64);
         let (threads, calls) = if cfg!(miri) { (2 + rng.below(3), 10 + rng.below(30)) } else {
-            match r % 5 { 0 => (2, 10_000 / ctx.scale), 1 => (64, 10 + rng.below(100)), 2 => (16, 1000 / ctx.scale), _ => (2 + rng.below(30), 10 + rng.below(2000 / ctx.scale)) }
+            match r % 5 { 0 => (64, 10 + rng.below(100)), 1 => (2, 10_000 / ctx.scale), 2 => (16, 1000 / ctx.scale), _ => (2 + rng.below(30), 10 + rng.below(2000 / ctx.scale)) }
         };
         // Once per shard: one long-lived thread that asks for more than 2^20 names while short-lived threads come and go
         // (schemes that hand out per-thread blocks or ranges only collide after many calls from one thread).
@@ -32,7 +92,8 @@ pub fn run(ctx: &mut Ctx) {
         let mut handles = Vec::new();
         for t in 0..threads {
             let b = barrier.clone();
-            let part = if same_part { "vmon-c20".to_string() } else { format!("vmon-c20-t{}", t) };
+            let base = NAME_PARTS[(r / 2) % NAME_PARTS.len()];
+            let part = if same_part { base.to_string() } else { format!("{}-t{}", base, t) };
             handles.push(std::thread::spawn(move || {
                 let calls = if heavy && t == 0 { (1usize << 20) + (1 << 16) } else { calls };
                 let mut out: Vec<(String, String)> = Vec::with_capacity(calls);
